@@ -141,7 +141,7 @@ Proof.
       destruct (count_pos_ex not_done (conns s)) as (c & Hin & Hn); [lia|].
       pose proof (find_conn_some (ct_id c) (conns s) c (i_nodup s I) Hin eq_refl) as F.
       unfold not_done in Hn. destruct (ct_st c) eqn:St; try discriminate.
-      * exists (LAdmit (ct_id c)). cbn [lstep]. rewrite F, St. eauto.
+      * exists (LEnter (ct_id c)). cbn [lstep]. rewrite F, St. eauto.
       * exists (LFinish (ct_id c)). cbn [lstep]. rewrite F, St. eauto.
 Qed.
 
@@ -274,12 +274,12 @@ Lemma stop_close_lis_enabled s : pc s = PStop1 -> exists s', lstep s LStopCloseL
 Proof. intros P. cbn [lstep]. rewrite P. eexists. split; [reflexivity|reflexivity]. Qed.
 
 Example live_ex :
-  let s := lrun (init true true) [LStartBegin; LStartOpen; LStartSpawnPlain; LStartSpawnTLS; LAcceptOk 0; LAcceptOk 1; LAcceptOk 0; LAdmit 2;
+  let s := lrun (init true true) [LStartBegin; LStartOpen; LStartSpawnPlain; LStartSpawnTLS; LAcceptOk 0; LAcceptOk 1; LAcceptOk 0; LEnter 2;
                                   LStopBegin; LStopCloseLis] in
   stop_wait (pc s) = true /\ mu s = 11 /\
   exists ls s', exec s ls = Some s' /\ pc s' = PStopped /\ length ls = 10.
 Proof.
   cbv zeta. split; [vm_compute; reflexivity|]. split; [vm_compute; reflexivity|].
-  exists [LAcceptFail 0; LAcceptFail 1; LStopWaitAccept; LStopCloseReg; LStopCloseConns; LFinish 2; LHandshakeFail 3; LAdmit 4; LFinish 4; LStopWaitConns].
+  exists [LAcceptFail 0; LAcceptFail 1; LStopWaitAccept; LStopCloseReg; LStopCloseConns; LFinish 2; LHandshakeFail 3; LEnter 4; LFinish 4; LStopWaitConns].
   vm_compute. eexists. split; [reflexivity|]. split; reflexivity.
 Qed.
